@@ -60,7 +60,7 @@ def perms_of(n):
     return sorted(set(out))
 
 
-FORMS = ["lists", "tuples", "flat", "yonly", "copy", "set_used", "mixed"]
+FORMS = ["lists", "tuples", "flat", "yonly", "copy", "set_used", "mixed", "lent_overwritten", "copy_source_reset"]
 
 
 def build(form, xs, ys):
@@ -89,6 +89,21 @@ def build(form, xs, ys):
         it.root(10.0, 30.0) if False else None
         it.set(list(xs), list(ys))
         return it
+    if form == "lent_overwritten":
+        # the caller re-uses its own buffers after handing them over
+        xl, yl = list(xs), list(ys)
+        c = Interpolation(xl, yl)
+        for k in range(len(xl)):
+            xl[k] = -3.0 * xl[k] + k
+            yl[k] = 7.0 - k
+        xl.append(5.0)
+        del yl[0]
+        return c
+    if form == "copy_source_reset":
+        src = Interpolation(list(xs), list(ys))
+        c = Interpolation(src)
+        src.set([1.0, 2.0, 4.0], [3.0, -1.0, 2.0])
+        return c
     raise KeyError(form)
 
 
